@@ -23,6 +23,13 @@ AttrListOk ==
         e.ok /\ p.ok /\ ValidInterval(e.iv) /\ p.iv = e.iv
   \* (which intervals have a built-in name at all is not stated: the chords that need one fail to load without it)
 
+\* ... and denotes it where it matters: a chord made of the unison and that attribute sounds the bass, the root and the
+\* root plus the interval's size (all names in one piece, one chord each)
+AttrUseOk ==
+  /\ R.ok /\ Len(R.ons) = Len(R.names)
+  /\ \A i \in 1..Len(R.names) : LET e == EnglishInterval(R.names[i]) IN
+        e.ok /\ Range(R.ons[i]) = {48, 60, 60 + Size(e.iv)}
+
 ChordListOk ==
   /\ R.ok /\ NoDup([i \in 1..Len(R.chords) |-> R.chords[i].name])
   /\ \A i \in 1..Len(R.chords) : R.chords[i].name # <<>>
@@ -69,6 +76,7 @@ IdleOk ==
 
 RecOk == CASE R.kind = "skipped" -> TRUE
            [] R.kind = "attrlist" -> AttrListOk
+           [] R.kind = "attruse" -> AttrUseOk
            [] R.kind = "chordlist" -> ChordListOk
            [] R.kind = "builtin" -> BuiltinOk
            [] R.kind = "userdict" -> UserDictOk /\ IdleOk
